@@ -3,7 +3,7 @@
    Fixpoint) are regenerated from _digital/_port.py on every run; Model/Port.v models the rest of
    port_to_line_data / from_port at the level of integer sample values. *)
 From Coq Require Import ZArith List String.
-From NV Require Import Common.Py Common.Trans Spec.PortSpec Gen.PortGen Model.Port Proofs.C06Proofs.
+From NV Require Import Common.Py Common.Trans Spec.PortSpec Gen.PortGen Model.Port Proofs.C06Proofs Model.PortBytes Proofs.C06Bytes.
 Open Scope Z_scope.
 
 (* bits_asc W mask 0 IS the ascending list of set mask bits below W *)
@@ -67,3 +67,16 @@ Example C06_witness :
   line_row true 8 6 5 = Ok [true; false] /\ line_row false 8 6 5 = Ok [false; true] /\
   port_mask_to_columns 256 8 "big" = Raise ValueError.
 Proof. repeat split; vm_compute; reflexivity. Qed.
+
+(* the byte-level pipeline of port_to_line_data — the k native (little-endian) bytes of a port value, byteswap for
+   bitorder='big', view(uint8), np.unpackbits in the requested bit order — yields exactly the value-level row the
+   theorems above speak of, for every port width and every value: the result depends only on the integer *)
+Theorem C06_bytes : forall big k v, pipeline_row big k v = full_row big (8 * k) v.
+Proof. exact pipeline_row_spec. Qed.
+Print Assumptions C06_bytes.
+
+(* an array of the other byte order is first converted to native order: same value, hence the same native bytes and
+   the same row, whatever order the samples arrived in *)
+Theorem C06_byte_order : forall k v, 0 <= v < 256 ^ Z.of_nat k -> normalise_be k (be_bytes k v) = le_bytes k v.
+Proof. exact normalise_be_ok. Qed.
+Print Assumptions C06_byte_order.
